@@ -58,6 +58,12 @@ type History struct {
 
 func newHistory() *History { return &History{h: sha256.New()} }
 
+// NewHistory creates an empty history (store-level checks that do not use World).
+func NewHistory() *History { return newHistory() }
+
+// Add appends a record.
+func (h *History) Add(r *Rec) *Rec { return h.add(r) }
+
 func (h *History) add(r *Rec) *Rec {
 	r.I = len(h.Recs)
 	h.Recs = append(h.Recs, r)
